@@ -136,6 +136,10 @@ func scalarValue(s *Spec, fd protoreflect.FieldDescriptor, newMsg func() protore
 func buildMessage(md protoreflect.MessageDescriptor, s *Spec, fd protoreflect.FieldDescriptor, v Val) (*dynamicpb.Message, error) {
 	msg := dynamicpb.NewMessage(md)
 	msg.Set(md.Fields().ByName("z"), protoreflect.ValueOfString("x"))
+	if sib := md.Fields().ByJSONName(siblingName); sib != nil && s.Kind == "enum" && !s.Req {
+		// the required sibling of an enum field under test (RulesFileText): first declared option
+		msg.Set(sib, protoreflect.ValueOfEnum(1))
+	}
 	if v.Absent {
 		return msg, nil
 	}
